@@ -309,6 +309,8 @@ class ProgGen(object):
             return self.atcmd()
         if f.get("boost") and r.random() < f["boost"]:
             k = r.choice([0.955, 0.965])     # G28 mid-program / G92 X/Y/Z
+        if f.get("p_relswitch") and r.random() < f["p_relswitch"]:
+            k = 0.67                         # G90 <-> G91
         if f.get("p_retmove") and not self.is_retracted() and r.random() < f["p_retmove"]:
             k = 0.945                        # retraction combined with a move / z-hop
         if k < 0.28:
